@@ -7,6 +7,12 @@ C (oracle): the implementation against the specification
    * ConvexSpheropolygon: closed-form ray / offset-segment / vertex-circle intersection from the
      exact core centroid, plus the defining residual  dist(c + d u, core) = r;
    * Ellipse / Circle: x^2/a^2 + y^2/b^2 = 1 at centre + d (cos, sin) and the polar closed form.
+History: a third of the shapes are reached through mutators (harness/history.py); on EVERY case the query is
+   repeated after 0..3 public setters (size, centre, radius, axes) and judged on the object's current geometry.
+Certificate: the hypotheses of `cpoly_dts_correct(_cw)` (strictly convex ccw, centre strictly inside) are decided
+   exactly over Q on the stored vertices / centre and on the spheropolygon's kernel polygon (op `c14.hyp`).
+Known finding (known_findings.d/C14.json): nan / lost digits inside the arc range of a vertex for rounding radius 0
+   or tiny; classified narrowly by `tiny_radius_arc_defect`.
 """
 import math
 from fractions import Fraction
@@ -17,11 +23,14 @@ from common import L, InfraError, ModelRaise, exc_kind
 
 RULE = ("convex polygons in the xy-plane: regular n-gons, irregular (points on a rotated ellipse, lattice hulls), "
         "axis-aligned (chamfered boxes / right triangles / trapezoids with exactly horizontal and vertical edges), "
-        "3-30 vertices; rotation none / exact quarter turns / arbitrary; offset 0..10 diameters; scale 1 or "
-        "10^[-3,3]; input order ccw / cw / shuffled; rounding radius 0 or 10^[-3,1] core diameters; ellipses "
-        "a<b, a=b, a>b with ratio up to 1e3 and arbitrary centres; per shape: angles uniform in [-4pi,4pi] + exact "
-        "vertex directions (+2 pi k) + arc end directions + multiples of pi/4. distinct = distinct (shape, angle "
-        "array); non-trivial = every case (>= 3 vertices or a,b > 0, >= 20 angles)")
+        "3-30 vertices; rotation none / exact quarter turns / almost axis-aligned (tilt 1e-9..3e-2 rad) / arbitrary; "
+        "offset 0..10 diameters; scale 1, 10^[-3,3] or an end of the range (1e-3, 1e3); input order ccw / cw / "
+        "shuffled; (N,2) or (N,3) input; rounding radius 0, 10^[-12,-3] or 10^[-3,1] core diameters; ellipses a<b and "
+        "a>b alternating, a=b, ratio up to 1e3, arbitrary centres; per shape: angles uniform in [-4pi,4pi] + exact "
+        "vertex directions (+2 pi k) + arc end directions + their one-ulp neighbours + multiples of pi/4 (all 33 of "
+        "them for ellipses); every shape fresh or reached through mutators, then queried again after 0..3 public "
+        "setters. distinct = distinct (shape, angle array); non-trivial = every case (>= 3 vertices or a,b > 0, "
+        ">= 20 angles)")
 ASSUMPTIONS = [
     "shapes lie in the xy-plane (z = 0); the in-plane 2x2 block of rowan.mapping.kabsch's rotation is an input of "
     "the model (contract: identity for the +z normal the code passes; checked per case)",
@@ -31,6 +40,11 @@ ASSUMPTIONS = [
     "accuracy clause: |impl - exact| <= 1e-9 * (max centre-vertex distance + r); 1e-7 relative where |cos theta| < "
     "1e-6 (tan branch) — both far below any algebraic error",
     "the exact polygon centroid is the triangle-fan area centroid (Spec.polyCentroid) evaluated over Q",
+    "inside a degenerate arc range (rounding radius < 1e-6 core size) model and implementation are compared to "
+    "1e-6*scale only (both evaluate a cancelling discriminant, with different roundings); the implementation's nan / "
+    "lost digits there are the known finding ...:radius~0:arc-discriminant",
+    "after mutators the oracle is evaluated on the object's current vertices / radius / axes (the property speaks "
+    "about the current shape); with no mutator in between, on the case's geometry",
 ]
 
 TWO_PI = 2 * math.pi
@@ -141,8 +155,18 @@ def place2d(rng, p, kind):
     """rotation (none / quarter turns / arbitrary), scale, offset."""
     info = {}
     u = rng.random()
-    if u < 0.4:
+    if u < 0.32:
         info["rotation"] = "none"
+    elif u < 0.44:
+        # almost-but-not-exactly axis-aligned: tilt 1e-9 .. 3e-2 rad (after 0..3 exact quarter turns); edges that
+        # were exactly horizontal / vertical get slopes ~tilt and ~1/tilt (absolute tolerances on dx, dy show here)
+        for _ in range(int(rng.integers(0, 4))):
+            p = np.stack([-p[:, 1], p[:, 0]], axis=1)
+        al = float(rng.choice([-1.0, 1.0]) * 10 ** rng.uniform(-9, -1.5))
+        rot = np.array([[math.cos(al), -math.sin(al)], [math.sin(al), math.cos(al)]])
+        p = p @ rot.T
+        info["rotation"] = "neartilt"
+        info["tilt"] = al
     elif u < 0.6:
         k = int(rng.integers(1, 4))
         for _ in range(k):
@@ -153,7 +177,13 @@ def place2d(rng, p, kind):
         rot = np.array([[math.cos(al), -math.sin(al)], [math.sin(al), math.cos(al)]])
         p = p @ rot.T
         info["rotation"] = "arbitrary"
-    scale = 1.0 if rng.random() < 0.6 else float(10 ** rng.uniform(-3, 3))
+    us = rng.random()
+    # scale 1, 10^[-3,3], or an END of the range (1e-3 / 1e3: absolute tolerances show there); almost axis-aligned
+    # polygons sit at an end of the range half of the time (an absolute threshold on dx needs both to show)
+    if info["rotation"] == "neartilt" and us < 0.5:
+        scale = float(rng.choice([1e-3, 1e-3, 1e3]))
+    else:
+        scale = 1.0 if us < 0.5 else (float(10 ** rng.uniform(-3, 3)) if us < 0.85 else float(rng.choice([1e-3, 1e3])))
     p = p * scale
     info["scale"] = scale
     d = float(np.max(np.linalg.norm(p[:, None, :] - p[None, :, :], axis=-1)))
@@ -277,7 +307,9 @@ def sphero_exit(P, c, r, u):
             w = a - c
             wu = float(np.dot(w, u))
             uu = float(np.dot(u, u))
-            disc = wu * wu - uu * (float(np.dot(w, w)) - r * r)
+            # wu^2 - uu (w.w - r^2) = uu r^2 - cross(w,u)^2: the second form does not cancel for r << |w|
+            cr = float(_cross(w, u))
+            disc = uu * r * r - cr * cr
             if disc >= 0:
                 t = (wu + math.sqrt(disc)) / uu
                 if t > 0 and (best is None or t > best):
@@ -298,7 +330,8 @@ def make_poly_case(ctx, sphero):
             "order": order, "info": info, "as3d": bool(rng.random() < 0.3)}
     r = None
     if sphero:
-        r = 0.0 if rng.random() < 0.12 else float(d * 10 ** rng.uniform(-3, 1))
+        ur = rng.random()
+        r = 0.0 if ur < 0.12 else (float(d * 10 ** rng.uniform(-12, -3)) if ur < 0.18 else float(d * 10 ** rng.uniform(-3, 1)))
         case["radius"] = r
     c = exact_centroid(p)
     case["angles"] = special_angles(rng, p, c, r, 14, 26 if not sphero else 34).tolist()
@@ -306,14 +339,15 @@ def make_poly_case(ctx, sphero):
     ctx.count("kind:" + kind)
     ctx.count("order:" + order)
     ctx.count("rotation:" + info["rotation"].split("*")[0])
+    ctx.count("scale:" + ("1" if info["scale"] == 1.0 else ("end" if info["scale"] in (1e-3, 1e3) else "other")))
     ctx.count("offset>0" if info["offset_diams"] > 0 else "offset=0")
     ctx.count("n<=4" if len(p) <= 4 else ("n<=12" if len(p) <= 12 else "n<=30"))
     if sphero:
-        ctx.count("radius=0" if r == 0 else ("radius<core" if r < d else "radius>=core"))
+        ctx.count("radius=0" if r == 0 else ("radius<1e-3core" if r < 1e-3 * d else ("radius<core" if r < d else "radius>=core")))
     return case
 
 
-def make_ellipse_case(ctx):
+def make_ellipse_case(ctx, index=0):
     rng = ctx.rng
     u = rng.random()
     if u < 0.2:
@@ -329,6 +363,9 @@ def make_ellipse_case(ctx):
             b = a * float(10 ** rng.uniform(-3, 3)) if v < 0.6 else a * float(10 ** rng.uniform(-0.7, 0.7))
             if b == a:
                 b = a * 2
+            # both orderings, alternating with the case index: a < b (major axis along y) on even, a > b on odd
+            if (a < b) != (index % 2 == 0):
+                a, b = b, a
     centre = [0.0, 0.0, 0.0] if rng.random() < 0.3 else (rng.normal(size=3) * [1, 1, 0] * 10 * max(a, b)).tolist()
     ang = np.concatenate([rng.uniform(-2 * TWO_PI, 2 * TWO_PI, size=20), np.arange(-16, 17) * (math.pi / 4)])
     ctx.count("shape:" + shape)
@@ -357,6 +394,64 @@ def tol_for(angles, scale, d_ref):
     return t
 
 
+
+KNOWN_R0_SIG = "ConvexSpheropolygon.distance_to_surface:boundary:radius~0:arc-discriminant"
+
+
+def tiny_radius_arc_defect(shape, angles, got, exact, near_only=False):
+    """mask of the entries that belong to the known floating-point defect of the arc branch for a (nearly) vanishing
+    rounding radius (r < 1e-6 core size): the reduced angle lies in the code's own arc range of a vertex (for r = 0:
+    it IS that vertex's direction, bit for bit) and the answer is nan or off by up to ~sqrt(eps)*size.  The arc
+    discriminant b**2 - 4ac = 4(|v|^2 cos^2 - |v|^2 + r^2) is 0 resp. ~r^2 in exact arithmetic
+    (spg_arc_r0_discriminant_zero) and is evaluated by cancellation of numbers of size |v|^2."""
+    poly = shape.polygon
+    r = float(shape.radius)
+    v = np.array(poly.vertices[:, :2], dtype=float) - np.array(poly.centroid[:2], dtype=float)
+    nv = np.linalg.norm(v, axis=1)
+    size = float(np.max(nv))
+    mask = np.zeros(len(angles), dtype=bool)
+    if not (r < 1e-6 * size):
+        return mask
+    th = np.arctan2(v[:, 1], v[:, 0])
+    th[th < 0] += 2 * np.pi
+    am = np.mod(angles, 2 * np.pi)
+    # the arc range of a vertex is within asin(r/|v|) of its direction (plus the rounding of the arctan2's)
+    width = 1.5 * r / nv + 3e-15
+    dd = np.abs(am[:, None] - th[None, :])
+    near = (dd <= width[None, :]) | (np.abs(dd - 2 * np.pi) <= width[None, :])
+    with np.errstate(all="ignore"):
+        loose = np.isnan(got) | (np.abs(got - exact) <= 1e-6 * size)
+    if near_only:
+        return near.any(axis=1)
+    return near.any(axis=1) & loose & ~(np.abs(got - exact) <= 1e-9 * size)
+
+
+def exact_distances(ctx, P, r, angles):
+    """the specification evaluated on the ccw vertex list P (floats read as rationals): exact triangle-fan centroid
+    and exact ray exit over Q (driver, Spec.polyCentroid / Spec.rayExit); for r > 0 the closed-form exit from
+    P (+) disc(r), self-checked against dist(point, P) = r.  Returns (exact d per angle, scale, centroid, us, |us|)."""
+    us = np.stack([np.cos(angles), np.sin(angles)], axis=1)
+    try:
+        q = ctx.driver.Q("c14.spec.poly", L([np.asarray(v) for v in P]), L([np.asarray(u) for u in us]))
+    except ModelRaise as e:
+        raise InfraError("spec oracle found no boundary point: %s (generator produced a bad polygon?)" % e.kind)
+    c = np.array([float(q[0]), float(q[1])])
+    unorm = np.hypot(us[:, 0], us[:, 1])
+    t_poly = np.array([float(x) for x in q[2:]]) * unorm
+    rel = P - c
+    scale = float(np.max(np.linalg.norm(rel, axis=1))) + r
+    if r > 0:
+        exact = np.array([sphero_exit(P, c, r, u) for u in us], dtype=float) * unorm
+        # self-check of the closed form against the defining property
+        for k in (0, len(us) // 2, len(us) - 1):
+            dd, _, _ = dist_to_polygon(c + exact[k] * us[k] / unorm[k], P)
+            if abs(dd - r) > 1e-9 * scale:
+                raise InfraError("sphero oracle self-check failed: %r vs %r" % (dd, r))
+    else:
+        exact = t_poly
+    return exact, scale, c, us, unorm
+
+
 def eval_poly(ctx, case):
     import coxeter
     sphero = case["shape"] == "spg"
@@ -375,7 +470,8 @@ def eval_poly(ctx, case):
         # a third of the cases: the same shape reached through a history (scaled, shifted copy; every query read
         # once, distance_to_surface included; size / centroid / radius setters) - see harness/history.py
         import history
-        shape, _how = history.maybe_via_history(shape, history.rng_for([case["input"], case["angles"]]), 0.33, ctx)
+        if not case.get("no_history"):
+            shape, _how = history.maybe_via_history(shape, history.rng_for([case["input"], case["angles"]]), 0.33, ctx)
         poly = shape.polygon if sphero else shape
         with np.errstate(all="ignore"):
             got = np.array(shape.distance_to_surface(angles.copy()), dtype=float)
@@ -389,27 +485,17 @@ def eval_poly(ctx, case):
     ctx.count("normal:" + ("-z" if poly.normal[2] < 0 else "+z"))
 
     # ------------- C: exact centroid and polygon exit over Q (Spec.polyCentroid / Spec.rayExit)
-    us = np.stack([np.cos(angles), np.sin(angles)], axis=1)
-    try:
-        q = ctx.driver.Q("c14.spec.poly", L([np.asarray(v) for v in P]), L([np.asarray(u) for u in us]))
-    except ModelRaise as e:
-        raise InfraError("spec oracle found no boundary point: %s (generator produced a bad polygon?)" % e.kind)
-    c = np.array([float(q[0]), float(q[1])])
-    unorm = np.hypot(us[:, 0], us[:, 1])
-    t_poly = np.array([float(x) for x in q[2:]]) * unorm
-    rel = P - c
-    scale = float(np.max(np.linalg.norm(rel, axis=1))) + r
-    if sphero and r > 0:
-        exact = np.array([sphero_exit(P, c, r, u) for u in us], dtype=float) * unorm
-        # self-check of the closed form against the defining property
-        for k in (0, len(us) // 2, len(us) - 1):
-            dd, _, _ = dist_to_polygon(c + exact[k] * us[k] / unorm[k], P)
-            if abs(dd - r) > 1e-9 * scale:
-                raise InfraError("sphero oracle self-check failed: %r vs %r" % (dd, r))
-    else:
-        exact = t_poly
+    exact, scale, c, us, unorm = exact_distances(ctx, P, r if sphero else 0.0, angles)
     tol = tol_for(angles, scale, exact)
     bad = ~(np.abs(got - exact) <= tol)  # also catches nan
+    known_nan = tiny_radius_arc_defect(shape, angles, got, exact) if sphero else np.zeros(len(angles), dtype=bool)
+    if np.any(known_nan):
+        k0 = int(np.argmax(known_nan))
+        ctx.fail(KNOWN_R0_SIG, "nan (or ~1e-8 relative error) for a direction inside the (degenerate) arc range of a "
+                 "vertex when the rounding radius is 0 or tiny: the arc discriminant cancels", case,
+                 {"angle": float(angles[k0]), "got": float(got[k0]), "exact": float(exact[k0]),
+                  "radius": float(shape.radius), "n": int(known_nan.sum())})
+        bad &= ~known_nan
     if np.any(bad):
         k = int(np.argmax(np.where(np.isnan(got), np.inf, np.abs(got - exact)) * bad))
         ctx.fail(cls + ".distance_to_surface:boundary",
@@ -419,6 +505,8 @@ def eval_poly(ctx, case):
     else:
         # defining residual (independent of the closed form): distance from the core polygon is r
         for k in range(0, len(us), 7):
+            if known_nan[k]:
+                continue
             pt = c + got[k] * us[k] / unorm[k]
             dd, db, inside = dist_to_polygon(pt, P)
             res = abs((dd if r > 0 else db) - r)
@@ -428,12 +516,23 @@ def eval_poly(ctx, case):
                          {"angle": float(angles[k]), "got": float(got[k]), "residual": res})
                 break
 
+    correspondence(ctx, case, shape, poly, sphero, cls, angles, r, got, scale, known_nan)
+    hypotheses(ctx, case, poly)
+    requery_after_mutation(ctx, case, shape, sphero, cls, angles)
+
+
+def correspondence(ctx, case, shape, poly, sphero, cls, angles, r, got, scale, known_nan):
+    import coxeter
     # ------------- B: model at Float on the implementation's stored data
     V = np.array(poly.vertices[:, :2], dtype=float)
     rot, flip = kabsch_block(poly.normal)
-    contract_ok = bool(np.array_equal(rot, np.eye(3)) and np.all(poly.vertices[:, 2] == 0))
+    # z = 0 exactly for directly built shapes; a shape reached through mutators (history) is back in the plane up to
+    # the rounding of the centroid setter
+    zmax = float(np.max(np.abs(poly.vertices[:, 2])))
+    contract_ok = bool(np.array_equal(rot, np.eye(3)) and zmax <= 1e-12 * (scale + float(np.max(np.abs(V)))))
     if not contract_ok:
-        ctx.contract_failures.append({"contract": "kabsch(+z) is the identity, z = 0", "got": rot.tolist()})
+        ctx.contract_failures.append({"contract": "kabsch(+z) is the identity, |z| <= 1e-12 size", "got": rot.tolist(),
+                                      "zmax": zmax})
     R = [rot[0, 0], rot[0, 1], rot[1, 0], rot[1, 1]]
     try:
         if sphero:
@@ -451,6 +550,12 @@ def eval_poly(ctx, case):
                 return
             rk, flipk = kabsch_block(K.normal)
             Rk = [rk[0, 0], rk[0, 1], rk[1, 0], rk[1, 1]]
+            # hypotheses of the kernel call (offset polygon strictly convex ccw, core centroid = origin strictly inside)
+            hk = ctx.driver.Q("c14.hyp", int(flipk), L([v for v in nv]), np.zeros(2))
+            ctx.count("hyp-kernel:hold" if (int(hk[0]) == 1 and int(hk[1]) == 1) else "hyp-kernel:FAIL")
+            if not (int(hk[0]) == 1 and int(hk[1]) == 1):
+                ctx.contract_failures.append({"contract": "offset polygon strictly convex ccw with the core centroid "
+                                                          "strictly inside (exact, Q)", "got": [int(hk[0]), int(hk[1])]})
             m = ctx.driver.F("c14.spg", Rk, int(flipk), int(flip), L([v for v in V]), cen, r, L(list(angles)))
             op = "c14.spg"
         else:
@@ -464,21 +569,148 @@ def eval_poly(ctx, case):
     both_nan = np.isnan(m) & np.isnan(got)
     ref = np.where(np.isfinite(got), np.abs(got), 0.0)
     tb = tol_for(angles, scale, ref)
-    badb = ~((np.abs(m - got) <= tb) | both_nan)
+    # the model squares by multiplication; the code's scalar `norm_v**2` goes through libm pow: the 1-ulp difference
+    # decides the sign of a discriminant that is 0 in exact arithmetic (known defect, reported under KNOWN_R0_SIG)
+    # (the model suffers the same cancellation with its own rounding: inside a degenerate arc range the two are only
+    #  compared to the accuracy the formula has there, ~sqrt(eps) * size)
+    if sphero:
+        degenerate = tiny_radius_arc_defect(shape, angles, got, got, near_only=True)
+        with np.errstate(all="ignore"):
+            tb = np.where(degenerate, np.maximum(tb, 1e-6 * scale), tb)
+            both_nan = both_nan | (degenerate & (np.isnan(m) | np.isnan(got)))
+    badb = ~((np.abs(m - got) <= tb) | both_nan | known_nan)
     if np.any(badb):
         k = int(np.argmax(badb))
         ctx.disagree(op, case, {"angle": float(angles[k]), "impl": float(got[k]), "model": float(m[k]),
                                 "n_bad": int(badb.sum())})
 
 
+
+def ccw_vertices(poly):
+    """the polygon's CURRENT vertices (xy), counter-clockwise about +z"""
+    V = np.array(poly.vertices[:, :2], dtype=float)
+    return V[::-1] if poly.normal[2] < 0 else V
+
+
+def hypotheses(ctx, case, poly):
+    """the hypotheses of `cpoly_dts_correct(_cw)` decided exactly (Q) on the vertices and centre the implementation
+    stores: Spec.strictConvexCCWb / strictlyInsideCCWb (sound: cpoly_dts_correct_checked)"""
+    V = np.array(poly.vertices[:, :2], dtype=float)
+    cen = np.array(poly.center[:2], dtype=float)
+    hb = ctx.driver.Q("c14.hyp", int(poly.normal[2] < 0), L([v for v in V]), cen)
+    ctx.count("hyp:checked")
+    if int(hb[0]) == 1 and int(hb[1]) == 1:
+        ctx.count("hyp:hold")
+    else:
+        ctx.count("hyp:FAIL")
+        ctx.contract_failures.append({"contract": "stored vertices strictly convex ccw (about the normal), stored centre "
+                                                  "strictly inside (exact, Q): hypotheses of cpoly_dts_correct",
+                                      "got": [int(hb[0]), int(hb[1])], "vertices": V.tolist()})
+
+
+def requery_after_mutation(ctx, case, shape, sphero, cls, angles):
+    """query -> mutate (size setter / centre setter / radius setter, 1..3 of them in a per-case order) -> query:
+    the second answer must be THE distance for the CURRENT geometry (oracle evaluated on the object's current
+    vertices and radius).  The first query happened in eval_poly."""
+    import history
+    rng = history.rng_for([case["angles"], case["input"], "mut"])
+    poly = shape.polygon if sphero else shape
+    muts = ["area", "perimeter"]
+    if sphero:
+        muts += ["radius", "radius0"]
+    else:
+        muts += ["centroid", "center", "bounding-circle"]
+    k = int(rng.choice([0, 1, 2, 3], p=[0.12, 0.53, 0.25, 0.1]))   # 0: the plain repeated query
+    seq = [muts[i] for i in rng.permutation(len(muts))[:k]]
+    done = []
+    try:
+        for mname in seq:
+            f = float(10 ** rng.uniform(-0.7, 0.7))
+            if mname == "area":
+                shape.area = float(shape.area) * f * f
+            elif mname == "perimeter":
+                shape.perimeter = float(shape.perimeter) * f
+            elif mname == "bounding-circle":
+                try:
+                    shape.minimal_centered_bounding_circle_radius = float(shape.minimal_centered_bounding_circle_radius) * f
+                except (AttributeError, NotImplementedError):
+                    shape.area = float(shape.area) * f * f
+                    mname = "area"
+            elif mname in ("centroid", "center"):
+                V0 = np.array(poly.vertices, dtype=float)
+                diam = float(np.max(np.linalg.norm(V0 - V0.mean(axis=0), axis=1))) * 2
+                t = np.r_[rng.normal(size=2) * diam * float(rng.uniform(0.1, 3.0)), 0.0]
+                setattr(shape, mname, np.array(getattr(shape, mname), dtype=float) + t)
+            elif mname == "radius":
+                V0 = np.array(poly.vertices, dtype=float)
+                diam = float(np.max(np.linalg.norm(V0 - V0.mean(axis=0), axis=1))) * 2
+                shape.radius = float(diam * 10 ** rng.uniform(-3, 1))
+            elif mname == "radius0":
+                shape.radius = 0.0
+            done.append(mname)
+        sub = angles[rng.choice(len(angles), size=min(12, len(angles)), replace=False)]
+        with np.errstate(all="ignore"):
+            got2 = np.array(shape.distance_to_surface(sub.copy()), dtype=float)
+    except Exception as e:
+        ctx.fail(cls + ".distance_to_surface:raises:after-mutation", "raised %s after %s" % (exc_kind(e), "+".join(done)),
+                 case, repr(e))
+        return
+    ctx.count("requery:" + ("+".join(sorted(set("centre" if d in ("centroid", "center") else d for d in done)))
+                            or "repeat"))
+    if done:
+        Pc = ccw_vertices(poly)
+        rc = float(shape.radius) if sphero else 0.0
+    else:
+        # nothing was changed: the second answer is judged against the CASE's geometry (a query that moved or
+        # rescaled the stored vertices would otherwise go unnoticed)
+        Pc = np.array(case["ccw"], dtype=float)
+        rc = float(case.get("radius", 0.0)) if sphero else 0.0
+    exact2, scale2, _c, _us, _un = exact_distances(ctx, Pc, rc, sub)
+    tol2 = tol_for(sub, scale2, exact2)
+    bad = ~(np.abs(got2 - exact2) <= tol2)
+    if sphero:
+        kn = tiny_radius_arc_defect(shape, sub, got2, exact2)
+        if np.any(kn):
+            k0 = int(np.argmax(kn))
+            ctx.fail(KNOWN_R0_SIG, "nan / lost digits inside a degenerate arc range (rounding radius 0 or tiny) after " + "+".join(done),
+                     case, {"angle": float(sub[k0]), "radius": rc, "mutators": done})
+            bad &= ~kn
+    if np.any(bad):
+        kk = int(np.argmax(np.where(np.isnan(got2), np.inf, np.abs(got2 - exact2)) * bad))
+        ctx.fail(cls + ".distance_to_surface:boundary:after-mutation",
+                 "after query -> %s -> query the answer is not the distance to the boundary of the shape's CURRENT "
+                 "geometry" % (" -> ".join(done) or "(nothing)"), case,
+                 {"mutators": done, "angle": float(sub[kk]), "got": float(got2[kk]), "exact": float(exact2[kk]),
+                  "n_bad": int(bad.sum()), "vertices_now": Pc.tolist(), "radius_now": rc})
+
+
+def judge_ellipse(ctx, cls, case, a, b, angles, got, suffix="", extra=None):
+    """C: defining equation at centre + d (cos, sin), in the centred frame, and the polar closed form"""
+    # subtracting a far centre costs |centre|/min(a,b) ulps: judge in the centred frame
+    x = got * np.cos(angles) / a
+    y = got * np.sin(angles) / b
+    resid = np.abs(x * x + y * y - 1)
+    exact = a * b / np.sqrt((a * np.sin(angles)) ** 2 + (b * np.cos(angles)) ** 2)
+    bad = ~((resid <= 1e-9) & (got > 0) & (np.abs(got - exact) <= 1e-9 * max(a, b)))
+    if np.any(bad):
+        k = int(np.argmax(bad))
+        det = {"a": a, "b": b, "angle": float(angles[k]), "got": float(got[k]), "exact": float(exact[k]),
+               "residual": float(resid[k])}
+        det.update(extra or {})
+        ctx.fail(cls + ".distance_to_surface:boundary" + suffix,
+                 "centre + d(cos t, sin t) is not on the ellipse x^2/a^2 + y^2/b^2 = 1", case, det)
+
+
 def eval_ellipse(ctx, case):
     import coxeter
+    import history
     a, b = float(case["a"]), float(case["b"])
     angles = np.array(case["angles"], dtype=float)
     circle = case["shape"] == "circle"
     cls = "Circle" if circle else "Ellipse"
     try:
         shape = coxeter.shapes.Circle(a, case["centre"]) if circle else coxeter.shapes.Ellipse(a, b, case["centre"])
+        shape, _how = history.maybe_via_history(shape, history.rng_for([case["a"], case["b"], case["angles"]]), 0.33, ctx)
         got = np.array(shape.distance_to_surface(angles.copy()), dtype=float)
     except Exception as e:
         ctx.fail(cls + ".distance_to_surface:raises", "raised %s" % exc_kind(e), case, repr(e))
@@ -487,22 +719,7 @@ def eval_ellipse(ctx, case):
         ctx.fail(cls + ".distance_to_surface:shape", "result shape differs from the angle array", case,
                  [list(got.shape), list(angles.shape)])
         return
-    # C: defining equation at centre + d (cos, sin), relative to the centre, and the polar form
-    cen = np.array(shape.centroid, dtype=float)
-    pts = cen[None, :2] + got[:, None] * np.stack([np.cos(angles), np.sin(angles)], axis=1)
-    x = (pts[:, 0] - cen[0]) / a
-    y = (pts[:, 1] - cen[1]) / b
-    # subtracting a far centre costs |centre|/min(a,b) ulps: judge in the centred frame instead
-    x = got * np.cos(angles) / a
-    y = got * np.sin(angles) / b
-    resid = np.abs(x * x + y * y - 1)
-    exact = a * b / np.sqrt((a * np.sin(angles)) ** 2 + (b * np.cos(angles)) ** 2)
-    bad = ~((resid <= 1e-9) & (got > 0) & (np.abs(got - exact) <= 1e-9 * max(a, b)))
-    if np.any(bad):
-        k = int(np.argmax(bad))
-        ctx.fail(cls + ".distance_to_surface:boundary",
-                 "centre + d(cos t, sin t) is not on the ellipse x^2/a^2 + y^2/b^2 = 1", case,
-                 {"angle": float(angles[k]), "got": float(got[k]), "exact": float(exact[k]), "residual": float(resid[k])})
+    judge_ellipse(ctx, cls, case, a, b, angles, got)
     # B
     if circle:
         m = ctx.driver.F("c14.circle", a, L(list(angles)))
@@ -513,6 +730,41 @@ def eval_ellipse(ctx, case):
     m = np.array(m, dtype=float)
     if not ctx.close_enough(m, got, max(a, b)):
         ctx.disagree(op, case, [m.tolist()[:3], got.tolist()[:3]])
+    # query -> mutate -> query: axis setters (also through the a<b / a>b boundary), size setters, centre setter
+    rng = history.rng_for([case["a"], case["b"], case["angles"], "mut"])
+    muts = ["radius", "area", "perimeter", "centroid"] if circle else ["a", "b", "swap", "area", "perimeter", "centroid"]
+    k = int(rng.choice([1, 2, 3], p=[0.6, 0.3, 0.1]))
+    seq = [muts[i] for i in rng.permutation(len(muts))[:k]]
+    try:
+        for mname in seq:
+            f = float(10 ** rng.uniform(-1.0, 1.0))
+            if mname == "radius":
+                shape.radius = float(shape.radius) * f
+            elif mname == "a":
+                shape.a = float(shape.a) * f
+            elif mname == "b":
+                shape.b = float(shape.b) * f
+            elif mname == "swap":
+                a0, b0 = float(shape.a), float(shape.b)
+                shape.a = b0
+                shape.b = a0
+            elif mname == "area":
+                shape.area = float(shape.area) * f * f
+            elif mname == "perimeter":
+                shape.perimeter = float(shape.perimeter) * f
+            else:
+                shape.centroid = np.array(shape.centroid, dtype=float) + np.r_[rng.normal(size=2) * max(a, b), 0.0]
+        got2 = np.array(shape.distance_to_surface(angles.copy()), dtype=float)
+        a2 = float(shape.radius) if circle else float(shape.a)
+        b2 = float(shape.radius) if circle else float(shape.b)
+    except Exception as e:
+        ctx.fail(cls + ".distance_to_surface:raises:after-mutation", "raised %s after %s" % (exc_kind(e), "+".join(seq)),
+                 case, repr(e))
+        return
+    ctx.count("requery:" + "+".join(sorted(set(seq))))
+    if not circle:
+        ctx.count("ellipse-after:a<b" if a2 < b2 else ("ellipse-after:a=b" if a2 == b2 else "ellipse-after:a>b"))
+    judge_ellipse(ctx, cls, case, a2, b2, angles, got2, ":after-mutation", {"mutators": seq})
 
 
 def eval_case(ctx, case):
@@ -540,6 +792,21 @@ FIXED_CASES = [
     {"shape": "cpoly", "kind": "rectangle", "ccw": [[2, -1], [2, 1], [-2, 1], [-2, -1]],
      "input": [[2, -1], [2, 1], [-2, 1], [-2, -1]], "order": "ccw", "info": {},
      "angles": [k * math.pi / 4 for k in range(-16, 17)] + [math.atan2(1, 2), math.atan2(1, 2) - 2 * math.pi]},
+    # known defect (known_findings.d/C14.json): radius 0, theta exactly at a vertex direction -> nan
+    {"shape": "spg", "kind": "r0-vertex-direction", "ccw": [[0.9, 1.2], [1.4, -2.8], [1.4, -1.2]],
+     "input": [[0.9, 1.2], [1.4, -2.8], [1.4, -1.2]], "order": "ccw", "radius": 0.0, "info": {}, "no_history": True,
+     "angles": [1.7257930687188372, 1.0, 2.0, -1.0, 0.0, 1.7257930687188372 - 2 * math.pi]},
+    # both axis orderings at every multiple of pi/4 in [-4pi, 4pi] (the eccentricity form is only right for a >= b)
+    {"shape": "ellipse", "a": 1.0, "b": 2.0, "centre": [0.0, 0.0, 0.0],
+     "angles": [k * math.pi / 4 for k in range(-16, 17)] + [0.3, -7.0, 12.0]},
+    {"shape": "ellipse", "a": 2.0, "b": 1.0, "centre": [0.0, 0.0, 0.0],
+     "angles": [k * math.pi / 4 for k in range(-16, 17)] + [0.3, -7.0, 12.0]},
+    {"shape": "ellipse", "a": 0.3, "b": 4.0, "centre": [-3.0, 0.5, 0.0],
+     "angles": [k * math.pi / 4 for k in range(-16, 17)] + [0.3, -7.0, 12.0]},
+    {"shape": "ellipse", "a": 5.0, "b": 0.5, "centre": [1.0, -2.0, 0.0],
+     "angles": [k * math.pi / 4 for k in range(-16, 17)] + [0.3, -7.0, 12.0]},
+    {"shape": "circle", "a": 3.0, "b": 3.0, "centre": [1.0, 1.0, 0.0],
+     "angles": [k * math.pi / 4 for k in range(-16, 17)] + [0.3, -7.0, 12.0]},
 ]
 
 
@@ -560,13 +827,19 @@ def run(ctx):
         case = make_poly_case(ctx, True)
         ctx.case(case)
         eval_case(ctx, case)
-    for _ in range(n_ell):
-        case = make_ellipse_case(ctx)
+    for k in range(n_ell):
+        case = make_ellipse_case(ctx, k)
         ctx.case(case)
         eval_case(ctx, case)
 
 
 def replay(ctx, payload):
+    if "broken" in payload and "case" not in payload:
+        # a correspondence disagreement recorded without a failing input: re-run the recorded cases
+        for b in payload["broken"]:
+            ctx.case(b["case"])
+            eval_case(ctx, b["case"])
+        return
     case = payload.get("case", payload)
     ctx.case(case)
     eval_case(ctx, case)
